@@ -241,6 +241,9 @@ func genPod(r *Rng, i int) PodCase {
 	base := pick(r, []string{"restricted", "restricted", "restricted", "baseline", "bare", "windows"})
 	pc.Base = base
 	p := &corev1.Pod{ObjectMeta: metav1.ObjectMeta{Name: fmt.Sprintf("pod-%d", i), Namespace: "ns"}}
+	if r.Chance(1, 2) { // identity metadata, shared by many different pods: it says nothing about the content
+		p.UID, p.ResourceVersion, p.Generation = "1b4e28ba-2fa1-11d2-883f-0016d3cca427", pick(r, []string{"4711", "4711", "4712"}), 3
+	}
 	perm := r.Perm(len(ctrNames))
 	k := 0
 	next := func() string { k++; return ctrNames[perm[k-1]] }
